@@ -450,7 +450,11 @@ type Conn struct {
 	// DeadlineHook, when set, runs at the start of every Set*Deadline call,
 	// before the call is recorded and takes effect (C10: a slow SetDeadline).
 	DeadlineHook func(t time.Time)
-	wroteN       int64
+	// WriteHook, when set, runs at the end of every successful Write, after
+	// the bytes are on their way and before Write returns (a writer that is
+	// slow to get the processor back).
+	WriteHook func(n int)
+	wroteN    int64
 }
 
 type DeadlineCall struct {
@@ -632,6 +636,9 @@ func (c *Conn) Write(p []byte) (int, error) {
 	l.mu.Unlock()
 	c.w.Ev(c.name, "write", n, "")
 	signal(l.wakeTx)
+	if h := c.WriteHook; h != nil && werr == nil {
+		h(n)
+	}
 	return n, werr
 }
 
